@@ -2,6 +2,7 @@ package compiler
 
 import (
 	"fmt"
+	"strings"
 
 	"github.com/grafana/cog/internal/ast"
 	"github.com/grafana/cog/internal/tools"
@@ -73,8 +74,13 @@ func (pass *PrefixEnumValues) enumMemberNameFromValue(member ast.EnumValue) stri
 		return tools.UpperCamelCase(member.Name)
 	}
 
-	if member.Name[0] == '-' {
-		return tools.UpperCamelCase(fmt.Sprintf("negative%s", member.Name[1:]))
+	// `memberNames="Low|"`: a member can be given an empty name
+	if member.Name == "" {
+		return "None"
+	}
+
+	if positive, isNegative := strings.CutPrefix(member.Name, "-"); isNegative {
+		return tools.UpperCamelCase(fmt.Sprintf("negative%s", positive))
 	}
 
 	return tools.UpperCamelCase(member.Name)
